@@ -48,15 +48,20 @@ fn part_a(ctx: &Ctx, rep: &mut Report) -> bool {
     let mut specs: Vec<(&str, u32)> = vec![];
     if thorough {
         specs.extend([("poseidon", 6), ("poseidon", 8), ("poseidon", 10), ("arith", 9), ("arith", 10)]);
+        specs.extend([("rot0", 5), ("rot1", 6), ("rot2", 8)]);
     } else {
         specs.push(("poseidon", rng.gen_range(6..=10)));
         specs.push(("arith", rng.gen_range(9..=10)));
+        specs.push((["rot0", "rot1", "rot2"][rng.gen_range(0..3usize)], rng.gen_range(5..=8)));
     }
     let mut cases = vec![];
     for (i, (what, k)) in specs.iter().enumerate() {
         let seed = ctx.seed.wrapping_mul(7919).wrapping_add(i as u64);
         let c = catch_any(|| match *what {
             "poseidon" => gd::poseidon_case(*k, seed),
+            "rot0" => gd::rot_case(0, *k, seed),
+            "rot1" => gd::rot_case(1, *k, seed),
+            "rot2" => gd::rot_case(2, *k, seed),
             _ => gd::arith_case(*k, seed),
         });
         match c {
@@ -70,6 +75,7 @@ fn part_a(ctx: &Ctx, rep: &mut Report) -> bool {
         return false;
     }
     let setup_s = t0.elapsed().as_secs_f64();
+    gd::cross_vk_accumulation(ctx.seed, &mut ctx.rng("C20/gadget/cross-vk"), if thorough { 60 } else { 12 }, rep);
 
     // plan
     let mut plan: Vec<gd::RunSpec> = vec![];
@@ -128,9 +134,9 @@ fn part_a(ctx: &Ctx, rep: &mut Report) -> bool {
                 });
             }
         }
-        plan.truncate(8);
+        plan.truncate(10);
     } else {
-        plan.truncate(80);
+        plan.truncate(120);
     }
 
     let t1 = Instant::now();
